@@ -565,6 +565,7 @@ func (se *SessionExecutor) recycleBackendConn(pc backend.PooledConnect) {
 
 	if pc.IsClosed() {
 		se.recycleTx(pc)
+		se.forgetKsConn(pc)
 		pc.Recycle()
 		return
 	}
@@ -586,12 +587,23 @@ func (se *SessionExecutor) recycleBackendConn(pc backend.PooledConnect) {
 	pc.Recycle()
 }
 
+// forgetKsConn unpins a keep-session connection that is about to be recycled,
+// so that it is neither used nor recycled again.
+func (se *SessionExecutor) forgetKsConn(pc backend.PooledConnect) {
+	for sliceName, ksConn := range se.ksConns {
+		if ksConn == pc {
+			delete(se.ksConns, sliceName)
+		}
+	}
+}
+
 func (se *SessionExecutor) recycleContinueConn(pc backend.PooledConnect) {
 	if pc == nil {
 		return
 	}
 	if pc.IsClosed() {
 		se.recycleTx(pc)
+		se.forgetKsConn(pc)
 		pc.Recycle()
 		return
 	}
